@@ -117,13 +117,8 @@ func (p *MinQueriesPlanner) Plan(ctx *PlanningContext) (QueryPlanList, error) {
 		return nil, err
 	}
 
-	flatSelection, err := graphql.ApplyFragments(parsedQuery.Operations[0].SelectionSet, parsedQuery.Fragments)
-	if err != nil {
-		return nil, err
-	}
-
 	// add the scrub fields
-	err = p.generateScrubFields(plans, flatSelection)
+	err = p.generateScrubFields(plans)
 	if err != nil {
 		return nil, err
 	}
@@ -795,8 +790,14 @@ func (p *MinQueriesPlanner) groupSelectionSet(ctx *PlanningContext, config *extr
 // This plan results in a query that has fields that were not explicitly asked for.
 // In order for the executor to know what to filter out of the final reply,
 // we have to leave behind paths to objects that need to be scrubbed.
-func (p *MinQueriesPlanner) generateScrubFields(plans QueryPlanList, requestSelection ast.SelectionSet) error {
+func (p *MinQueriesPlanner) generateScrubFields(plans QueryPlanList) error {
 	for _, plan := range plans {
+		// what the client asked for is decided by the plan's own operation
+		requestSelection, err := graphql.ApplyFragments(plan.Operation.SelectionSet, plan.FragmentDefinitions)
+		if err != nil {
+			return err
+		}
+
 		// the list of fields to scrub in this plan
 		fieldsToScrub := map[string][][]string{"id": {}}
 
